@@ -140,8 +140,8 @@ def preemption_family(ctx, uni, mp, thorough):
              ("Pi23", "i23", "Pm65", "m65", 10 ** 9 if T else 120), ("Pm65", "m65", "Pq251", "q251", 10 ** 9 if T else 60),
              ("P3072", "I3072", "P1024", "I1024", 10 ** 9 if T else 40), ("P1024", "I1024", "P2048", "I2048", 400 if T else 30),
              ("Ped37", "ed37", "Pi23", "i23", 1500 if T else 60), ("Ped37", "ed37", "Ped37", "ed37", 1500 if T else 40),
-             ("PEd25519", "Ed25519", "P1024", "I1024", 150 if T else 6),
-             ("PEd25519", "Ed25519", "PEd25519", "Ed25519", 150 if T else 6)]
+             ("PEd25519", "Ed25519", "P1024", "I1024", 60 if T else 6),
+             ("PEd25519", "Ed25519", "PEd25519", "Ed25519", 60 if T else 6)]
     out, npoints, nlines, ndistinct = [], 0, 0, 0
     for n, (ps1, g1, ps2, g2, cap) in enumerate(pairs):
         q1, q2 = uni.group(g1).order(), uni.group(g2).order()
